@@ -120,8 +120,22 @@ pub const WINDOW_SETS: [&[&[f64]]; 10] = [
     &[&[1.0], &[-1.0, 1.0, 0.0], &[1.0, -2.0, 1.0]],
 ];
 
+/// ids 0..9 are the sets above; id + 10 (+ 20) is the same set with the static window written
+/// with one (two) exact zeros on either side: [0, 1, 0] means the same as [1]
 pub fn window_set(id: usize) -> Vec<Vec<f64>> {
-    WINDOW_SETS[id].iter().map(|w| w.to_vec()).collect()
+    let mut set: Vec<Vec<f64>> = WINDOW_SETS[id % 10].iter().map(|w| w.to_vec()).collect();
+    let pad = id / 10;
+    if pad > 0 {
+        let mut w = vec![0.0; pad];
+        w.extend(&set[0]);
+        w.extend(vec![0.0; pad]);
+        set[0] = w;
+    }
+    set
+}
+
+fn window_pick(rng: &mut Rng) -> usize {
+    rng.below(10) + if rng.chance(0.12) { 10 * rng.range(1, 2) } else { 0 }
 }
 
 impl VoiceOpts {
@@ -134,8 +148,8 @@ impl VoiceOpts {
             ln_gain: rng.chance(0.5),
             mcp_len: rng.range(2, 10),
             lpf_len: 2 * rng.range(0, 7) + 1,
-            win_mcp: rng.below(10),
-            win_lf0: rng.below(10),
+            win_mcp: window_pick(rng),
+            win_lf0: window_pick(rng),
             gv_mcp: rng.chance(0.5),
             gv_lf0: rng.chance(0.5),
             rate: *rng.pick(&[8000usize, 16000, 22050, 44100, 48000]),
@@ -334,6 +348,11 @@ fn gen_model(
                 NodeSpec::Node { q: name.clone(), no: Box::new(other), yes: Box::new(root) }
             };
         }
+        // a tree that is a single leaf need not name the first PDF of its table (the table may
+        // hold more PDFs than the tree uses)
+        if nleaf == 1 && rng.chance(0.5) {
+            nleaf += rng.range(1, 3);
+        }
         // leaf ids are a random permutation of 1..=n (the file need not list them in order)
         let mut perm: Vec<usize> = (1..=nleaf).collect();
         rng.shuffle(&mut perm);
@@ -478,7 +497,8 @@ pub fn generate(opts: &VoiceOpts, pool: &QuestionPool, rng: &mut Rng) -> VoiceSp
         },
     );
     let mut mcp_opts = vec![format!("ALPHA={}", opts.alpha)];
-    if stage != 0 {
+    // (with the mel-cepstral filter the two options may be left out, or be spelled out)
+    if stage != 0 || opts.opt_order % 2 == 1 {
         mcp_opts.push(format!("GAMMA={}", stage));
         mcp_opts.push(format!("LN_GAIN={}", ln_gain as u8));
     }
